@@ -710,6 +710,171 @@ def one_scalar_case(ctx, cuqi, state, cases, stats, fam, P, x, n, forms, via, if
 
 
 # ------------------------------------------------------------------------------------------------
+# n-dimensional normalisation: the mass of a box (theorems C04_*_box_mass / C04_*_normalised_nd)
+# ------------------------------------------------------------------------------------------------
+def box_integral(f, box, pts):
+    """iterated adaptive quadrature (first coordinate outermost, as in is_box_int) of f : list -> float over the box"""
+    from scipy.integrate import quad
+    def rec(prefix, k):
+        if k == len(box):
+            return f(prefix)
+        a, b = box[k]
+        p = [q for q in pts[k] if a < q < b] or None
+        return quad(lambda t: rec(prefix + [t], k + 1), a, b, points=p, epsabs=1e-13, epsrel=1e-11, limit=100)[0]
+    return rec([], 0)
+
+
+def gamma_int_cdf(k, r, x):
+    """1 - exp(-r x) sum_{i<=k} (r x)^i / i!  (theorem C04_gamma_cdf_closed_form), plain Python"""
+    y, term, tot = r * x, 1.0, 1.0
+    for i in range(1, k + 1):
+        term *= y / i
+        tot += term
+    return 1.0 - math.exp(-y) * tot
+
+
+def box_spec(rng, fam, P, n):
+    """the box of the theorem for this family, the 1-d factors of its mass as (Coq expression of a cdf-type term, float value, sign) per
+    coordinate, and the breakpoints of the density"""
+    g = lambda k, i: bc(P[k], n)[i]
+    box, factors, pts = [], [], []
+    Phi = lambda z: 0.5 * (1 + math.erf(z / math.sqrt(2)))
+    T = rng.choice([2.0, 2.5, 3.0, 4.0])
+    for i in range(n):
+        if fam in ("Normal", "Gaussian"):
+            m, sd = g("mean", i), g("std", i)
+            a = m + rng.randint(-20, -1) / 8 * sd
+            b = m + rng.randint(1, 20) / 8 * sd
+            fs = []
+            for e, sg in ((b, 1), (a, -1)):
+                z = (frac(e) - frac(m)) / frac(sd)
+                fs.append(("(normal_cdf1 (%s, %s, %s))" % (cr(m), cr(sd), cr(e)), Phi(float(z)), sg))
+            box.append((a, b)); factors.append(fs); pts.append([])
+        elif fam == "Cauchy":
+            l, sc = g("location", i), g("scale", i)
+            a, b = l - rng.randint(1, 24) / 4, l + rng.randint(1, 24) / 4
+            fs = [("(cauchy_cdf1 (%s, %s, %s))" % (cr(l), cr(sc), cr(e)), math.atan((e - l) / sc) / math.pi + 0.5, sg) for e, sg in ((b, 1), (a, -1))]
+            box.append((a, b)); factors.append(fs); pts.append([l])
+        elif fam == "Laplace":
+            l, sc = g("location", i), P["scale"][0]
+            box.append((l - T, l + T)); pts.append([l])
+            factors.append([("(1 - exp (- %s / %s))" % (cr(T), cr(sc)), 1 - math.exp(-T / sc), 1)])
+        elif fam == "Uniform":
+            box.append((g("low", i), g("high", i))); pts.append([]); factors.append([("1", 1.0, 1)])
+        elif fam == "Gamma":
+            k, r = int(g("shape", i)) - 1, g("rate", i)
+            box.append((0.0, T)); pts.append([])
+            factors.append([("(gamma_int_cdf1 %s %s %s)" % (cnat(k), cr(r), cr(T)), gamma_int_cdf(k, r, T), 1)])
+        elif fam == "InverseGamma":
+            k, l, sc = int(g("shape", i)) - 1, g("location", i), g("scale", i)
+            box.append((l + 1 / T, l + T)); pts.append([])
+            factors.append([("(gamma_int_cdf1 %s %s %s)" % (cnat(k), cr(sc), cr(T)), gamma_int_cdf(k, sc, T), 1),
+                            ("(gamma_int_cdf1 %s %s (/ %s))" % (cnat(k), cr(sc), cr(T)), gamma_int_cdf(k, sc, 1 / T), -1)])
+        elif fam == "Beta":
+            box.append((0.0, 1.0)); pts.append([]); factors.append([("1", 1.0, 1)])
+        elif fam == "Lognormal":
+            m, sd = g("mean", i), math.sqrt(g("cov", i))
+            v = T / 2
+            box.append((math.exp(-v), math.exp(v))); pts.append([])
+            factors.append([("(normal_cdf1 (%s, sqrt %s, %s))" % (cr(m), cr(g("cov", i)), cr(e)), Phi((e - m) / sd), sg) for e, sg in ((v, 1), (-v, -1))])
+    return box, factors, pts
+
+
+def boxmass_build(cuqi, meta):
+    fam, P, n = meta["family"], meta["params"], meta["dim"]
+    if fam == "Gaussian":
+        form = meta["form"]
+        var = [sd * sd for sd in P["std"]]
+        val = {"cov": var, "prec": [1 / v for v in var], "sqrtcov": [math.sqrt(v) for v in var], "sqrtprec": [1 / math.sqrt(v) for v in var]}[form]
+        val = float(val[0]) if len(val) == 1 else (np.array(val) if meta["ifaces"][0] != "densediag" else np.diag(val))
+        mean = float(P["mean"][0]) if len(P["mean"]) == 1 else np.array(P["mean"], dtype=float)
+        return cuqi.distribution.Gaussian(mean, **{form: val}, geometry=n)
+    dist, _ = build_dist(cuqi, fam, P, n, meta["ifaces"], "direct")
+    return dist
+
+
+def boxmass_observe(cuqi, meta):
+    dist = boxmass_build(cuqi, meta)
+    with warnings.catch_warnings():
+        warnings.simplefilter("ignore")
+        with np.errstate(all="ignore"):
+            if meta["through"] == "pdf":
+                f = lambda xs: float(np.asarray(dist.pdf(np.array(xs, dtype=float))).ravel()[0])
+            else:
+                f = lambda xs: math.exp(float(np.asarray(dist.logpdf(np.array(xs, dtype=float))).ravel()[0]))
+            return float(box_integral(f, meta["box"], meta["breakpoints"]))
+
+
+def boxmass_oracle(meta, obs):
+    """the property clause "the density integrates to one over the support", on boxes: the integral of the implementation's density over
+    the box equals the product of the documented 1-d masses (closed forms, plain Python)"""
+    expected = 1.0
+    for fs in meta["factor_values"]:
+        expected *= sum(sg * v for v, sg in fs)
+    fail, sig = None, ""
+    if obs is None or not close_rel(obs, expected, 1e-7):
+        fam, P, n = meta["family"], meta["params"], meta["dim"]
+        pred, dsig = DEFECT_CLASS.get(fam, (None, None))
+        fail = "%s(%s) dim %d: the integral of %s over the box %s is %r, the documented density has mass %r there" % (fam, P, n, meta["through"], meta["box"], obs, expected)
+        sig = dsig if pred is not None and pred(P, n, "pdf") else "%s.normalisation|%s" % (fam, meta["forms"])
+    return fail, sig, expected
+
+
+def box_mass_cases(ctx, cuqi, state, cases, stats):
+    """NORMALISATION IN n DIMENSIONS (theorems C04_normal_box_mass, C04_cauchy_box_mass, C04_laplace_normalised_nd, C04_uniform_normalised_nd,
+    C04_gamma_int_normalised_nd, C04_beta_int_normalised_nd, C04_invgamma_int_normalised_nd, C04_lognormal_box_mass): the implementation's
+    pdf / exp(logpdf) is integrated numerically over the box of the theorem (dims 1, 2; thorough 3) and compared with the theorem's mass,
+    whose 1-d factors (integrals of the documented densities / closed forms) are enclosed in Coq one by one."""
+    rng = ctx.rng
+    counter = 0
+    fams = ["Normal", "Gaussian", "Cauchy", "Laplace", "Uniform", "Gamma", "InverseGamma", "Beta", "Lognormal"]
+    for fam in fams:
+        base = "Normal" if fam == "Gaussian" else fam
+        names, positive, scalar_only = FAMILIES[base]
+        allS = "S" * len(names)
+        allV = "".join("S" if nm in scalar_only else "V" for nm in names)
+        cfgs = [(1, allS), (2, allV), (2, allS)] + ([(3, allV), (2, "SV"[::1] if len(names) == 2 and not scalar_only else allV)] if ctx.thorough else [])
+        for n, forms in cfgs:
+            if fam == "Lognormal" and n > 1 and forms[0] == "S":
+                forms = "V" + forms[1:]
+            counter += 1
+            P = draw_params(rng, base, forms, n)
+            for nm in SHAPE_PARAMS.get(fam, []):
+                P[nm] = [float(rng.randint(1, 4)) for _ in P[nm]]
+            if fam == "Lognormal":
+                P["cov"] = [(rng.randint(2, 12) / 8) ** 2 for _ in P["cov"]]
+            ifl = RAW_FAMILIES.get(fam, IFACES)
+            ifaces = [ifl[(counter + j) % len(ifl)] for j in range(len(names))]
+            meta = {"kind": "boxmass", "family": fam, "params": P, "dim": n, "forms": forms, "ifaces": ifaces, "through": ["pdf", "logpdf"][counter % 2]}
+            if fam == "Gaussian":
+                meta["form"] = ["cov", "prec", "sqrtcov", "sqrtprec"][counter % 4]
+                meta["ifaces"] = ["densediag" if (forms[1] == "V" and counter % 2) else "vector"]
+                if forms[1] == "V":
+                    P["std"] = [rng.choice([0.5, 0.75, 1.0, 1.5, 2.0]) for _ in P["std"]]
+            box, factors, pts = box_spec(rng, fam, P, n)
+            meta.update({"box": [list(b) for b in box], "breakpoints": pts, "factor_values": [[(v, sg) for _, v, sg in fs] for fs in factors]})
+            obs = boxmass_observe(cuqi, meta)
+            meta["observed"] = obs
+            fail, sig, expected = boxmass_oracle(meta, obs)
+            eps = Fraction(1, 10 ** 9)
+            parts, prod, nf = [], Fraction(1), 0
+            for fs in factors:
+                tot = Fraction(0)
+                for e, v, sg in fs:
+                    q = frac(float(v))
+                    if e != "1":
+                        parts.append("(Rabs (%s - %s) <= %s)%%R" % (e, cr(q), cr(eps)))
+                        nf += 1
+                    tot += sg * q
+                prod *= tot
+            v = frac(obs) if obs is not None and math.isfinite(obs) else Fraction(-1)
+            parts.append("(Rabs (%s - %s) <= %s)%%R" % (cr(prod), cr(v), cr(Fraction(1, 10 ** 7) * abs(v) + nf * eps)))
+            cell = "%s/%s/box-mass/%s" % (fam + ("." + meta["form"] if fam == "Gaussian" else ""), forms + ("1" if n == 1 else "n"), meta["through"])
+            cases.append(Case(expr=" /\\ ".join(parts), tac="c04_int.", kind="ENCLOSURE", meta=meta, cell=cell, impl_fail=fail, signature=sig))
+            stats["boxmass"] = stats.get("boxmass", 0) + 1
+
+
+# ------------------------------------------------------------------------------------------------
 # exact linear algebra in Fractions (certificates for the model, and the independent oracle)
 # ------------------------------------------------------------------------------------------------
 def fr_mat(M):
@@ -2401,6 +2566,7 @@ def run(ctx):
     scalar_falsy_cases(ctx, cuqi, state, cases, stats)
     scalar_boundary_reassign_cases(ctx, cuqi, state, cases, stats)
     scalar_sibling_cases(ctx, cuqi, state, cases, stats)
+    box_mass_cases(ctx, cuqi, state, cases, stats)
     cases = balance_shards(cases)
     return Result(cases=cases, rule=RULE, extra={"c04_stats": stats, "c04_state": {k: v for k, v in state.items() if k != "witness"}},
                   assumptions=["lnGamma at shapes that are not integers or half-integers enters as a certificate value from scipy.special.gammaln, cross-checked against libm lgamma to 1e-12",
@@ -2434,6 +2600,10 @@ def recheck(cuqi, meta):
         tmp, st = [], {}
         gcov_case(None, cuqi, {}, tmp, st, {kk: vv for kk, vv in meta.items() if kk != "observed"}, "replay")
         return ob, tmp[0].impl_fail, tmp[0].signature
+    if k == "boxmass":
+        obs = boxmass_observe(cuqi, meta)
+        fail, sig, exp = boxmass_oracle(meta, obs)
+        return {"integral of the implementation's density over the box": obs, "documented mass": exp}, fail, sig
     if k == "mrf":
         ob = mrf_observe(cuqi, meta)
         D = ob.pop("D")
@@ -2459,6 +2629,8 @@ def classify(meta, detail):
         return "%s.%s|%s" % (meta["family"], meta["method"].replace("_own", ""), meta.get("forms", ""))
     if k == "gaussian":
         return "Gaussian.%s|%s:%s" % (meta.get("method"), meta.get("form"), meta.get("gkind"))
+    if k == "boxmass":
+        return "%s.normalisation|%s" % (meta["family"], meta.get("forms", ""))
     if k == "mrf":
         return "%s.%s|%s%s" % (meta["family"], meta["method"], meta["bc"], ":order%d" % meta["order"] if meta["family"] == "GMRF" else "")
     return "C04|" + str(meta.get("witness", ""))
